@@ -41,7 +41,9 @@ RULE = ("each run draws one framework accumulator with its constructor arguments
         " among group keys, nested group contexts in permuted insertion order, Vectorize over item"
         " stores and over components of unequal result counts, results updated in place / asked"
         " for their scale downstream as soon as they are yielded, and earlier results compared"
-        " again after later operations.")
+        " again after later operations."
+        " Also: edges that start below zero and the largest floats below an edge with a line-"
+        " count watchdog around Histogram.fill; group keys 1, 1.0 and True.")
 REAL = ["lena.flow.Count", "lena.flow.StoreFilled", "lena.flow.GroupBy", "lena.math.Sum", "lena.math.DSum",
         "lena.math.Mean", "lena.math.VarianceMeanCount", "lena.math.Vectorize",
         "lena.structures.Histogram", "lena.structures.Graph (deprecated element)",
